@@ -602,7 +602,7 @@ func (f *STFS) OpenFile(name string, flag int, perm os.FileMode) (afero.File, er
 		return nil, config.ErrIsDirectory
 	}
 
-	return NewFile(
+	file := NewFile(
 		f.readOps,
 		f.writeOps,
 
@@ -621,7 +621,16 @@ func (f *STFS) OpenFile(name string, flag int, perm os.FileMode) (afero.File, er
 
 		f.onHeader,
 		f.log,
-	), nil
+	)
+
+	// `O_TRUNC` takes effect when the file is opened, not only once something is written to it
+	if flags.Truncate && flags.Write {
+		if err := file.enterWriteMode(); err != nil {
+			return nil, err
+		}
+	}
+
+	return file, nil
 }
 
 func (f *STFS) Remove(name string) error {
